@@ -8,6 +8,7 @@
 #include <aws/common/assert.h>
 #include <aws/common/macros.h>
 #include <aws/common/mutex.h>
+#include <aws/common/zero.h>
 
 /*
  * Small Block Allocator
@@ -368,8 +369,10 @@ static void s_sba_free_to_bin(struct sba_bin *bin, void *addr) {
                 break;
             }
         }
-        /* ensure that the page tag is erased, in case nearby memory is re-used */
-        page->tag = page->tag2 = 0;
+        /* ensure that the page tag is erased, in case nearby memory is re-used. These are the last stores to the page
+         * before it is freed, so a plain assignment is removed by the compiler as a dead store: a larger block the
+         * parent allocator later places over this memory would then be mistaken for one of our chunks on release. */
+        aws_secure_zero(page, sizeof(struct page_header));
         s_aligned_free(page);
         return;
     }
